@@ -7,6 +7,7 @@ and validates every recorded transaction of the real Server<ScriptedFs> with Tra
 import json
 import os
 import re
+import shutil
 
 from . import common as C
 
@@ -205,6 +206,23 @@ def run_c01(ctx):
     t3 = ctx.path("wf.ndjson")
     if run_harness_c01(ctx, bindir, [abi, t3, 1 if ctx.quick else 20], "wf"):
         validate(ctx, "C01", t3, "wf")
+    # thorough tier: a sample of the same inputs under valgrind memcheck (reads/writes outside the supplied buffers that
+    # miss the canaries, use of uninitialised request bytes in a decision)
+    if not ctx.quick and shutil.which("valgrind"):
+        import subprocess
+        vg = 0
+        for gen, args in (("random", [abi, ctx.path("vg1.ndjson"), "random", 4000]), ("class", [abi, ctx.path("vg2.ndjson"), "classes", cases, 1, 7])):
+            e = dict(os.environ, VERIF_SEED=str(ctx.seed))
+            r = subprocess.run(["valgrind", "-q", "--error-exitcode=99", os.path.join(bindir, "wire")] + [str(a) for a in args], env=e,
+                               stdout=subprocess.PIPE, stderr=subprocess.PIPE, text=True)
+            if r.returncode == 99 or "== Invalid" in r.stderr or "uninitialised" in r.stderr:
+                first = next((l for l in r.stderr.splitlines() if "Invalid" in l or "uninitialised" in l), "memcheck error")
+                kind = "-".join(first.split("==")[-1].split()[:3])
+                ctx.violation("C01|memcheck|%s|%s" % (gen, kind), {"valgrind": r.stderr[-3000:]}, replay_src={"cmd": ["valgrind", "wire"] + [str(a) for a in args], "seed": ctx.seed})
+            elif r.returncode != 0:
+                raise C.ToolError("valgrind run failed (%d): %s" % (r.returncode, r.stderr[-500:]))
+            vg += len(C.read_ndjson(args[1])) - 1
+        ctx.extra["transactions_under_valgrind_memcheck"] = vg
 
     def mut(bad):
         n = 0
